@@ -73,11 +73,11 @@ reg(
     "generated perturbation, update-constraint subset with new values drawn from the reference conditional priors). The "
     "classifier detects whether the change flips a Cond predicate (class counter 'flip'). Non-trivial: constraints non-empty "
     "or args changed, and the program has a combinator or a data dependency. Distinct = hash of the whole case.",
-    quick={"shards": 16, "timeout_s": 1500, "n_cases": 14,
-           "required_classes": ["C03.flip", "C03.noflip", "C03.args_changed", "C03.args_same", "C03.constraints_some",
+    quick={"shards": 16, "timeout_s": 1500, "n_cases": 12, "n_top": 3,
+           "required_classes": ["C03.top_level_scan", "C03.top_level_vmap", "C03.flip", "C03.noflip", "C03.args_changed", "C03.args_same", "C03.constraints_some",
                                 "C03.constraints_none", "C03.prog_with_scan", "C03.prog_with_vmap", "C03.prog_with_cond"]},
-    thorough={"shards": 16, "timeout_s": 4 * 3600, "n_cases": 250,
-              "required_classes": ["C03.flip", "C03.noflip", "C03.args_changed", "C03.constraints_some"]},
+    thorough={"shards": 16, "timeout_s": 4 * 3600, "n_cases": 250, "n_top": 40,
+              "required_classes": ["C03.top_level_scan", "C03.flip", "C03.noflip", "C03.args_changed", "C03.constraints_some"]},
 )
 
 reg(
